@@ -56,12 +56,17 @@ def values(ctx, reduced=False):
 HEADERS = {
     "default": dict(h1=None, h2=None, b0=None),
     "custom": dict(h1=b"ML10Library", h2=b"a comment", b0=b"\x00\x01descriptor"),
+    # each variable-length header field alone (a length of 0 next to a non-empty neighbour)
+    "h2only": dict(h1=None, h2=b"comment only", b0=None),
+    "b0only": dict(h1=b"ML10UKV01", h2=None, b0=b"\x07desc"),
 }
 HEADER_EXPECT = {
     # h1 is a 16-byte NUL-padded field in the file; a handle that created the file shows it
     # unpadded, a handle that read it shows it padded: compared up to the padding
     "default": (b"ML10UKV01", b"", b""),
     "custom": (b"ML10Library", b"a comment", b"\x00\x01descriptor"),
+    "h2only": (b"ML10UKV01", b"comment only", b""),
+    "b0only": (b"ML10UKV01", b"", b"\x07desc"),
 }
 
 
@@ -95,8 +100,9 @@ class UState:
 
 
 class USys:
-    def __init__(self, ctx, nhandles=2, keys=None, vals=None, label="U"):
+    def __init__(self, ctx, nhandles=2, keys=None, vals=None, label="U", headers=None):
         self.ctx = ctx
+        self.headers = headers or list(HEADERS)
         self.nh = nhandles
         self.keys = keys or list(KEYNAMES)
         self.vals = vals or values(ctx)
@@ -172,7 +178,7 @@ class USys:
     def enabled(self, st):
         ops = []
         if not st.exists:
-            for hd in HEADERS:
+            for hd in self.headers:
                 ops.append(("create", "h0", "x", hd))
             return ops
         names = [f"h{i}" for i in range(self.nh)]
@@ -444,8 +450,9 @@ class CSys:
 
     BUFS = {"dflt": -1, "zero": 0, "small": 4, "large": 10**6}
 
-    def __init__(self, ctx, nhandles=2, keys=None, vals=None, bufs=None, label="C"):
+    def __init__(self, ctx, nhandles=2, keys=None, vals=None, bufs=None, label="C", hdr_kw=None):
         self.ctx = ctx
+        self.hdr_kw = hdr_kw  # header fields given when the first handle creates the file
         self.nh = nhandles
         self.keys = keys or list(CKEYS)
         self.vals = vals or values(ctx)
@@ -579,7 +586,10 @@ class CSys:
         if kind == "new":
             _, name, b, ro = op
             try:
-                c = Collection(self.path, UkvCollectionBackend, bufsize=self.BUFS[b], readonly=ro)
+                kw = {}
+                if not st.exists and self.hdr_kw:
+                    kw = dict(self.hdr_kw)
+                c = Collection(self.path, UkvCollectionBackend, bufsize=self.BUFS[b], readonly=ro, **kw)
             except Exception as e:
                 self.viol(st, op, "constructor-raised", f"Collection(...) raised {exc_name(e)}: {e}")
                 st.hist.append(list(op))
@@ -739,6 +749,17 @@ class CSys:
         if not any(st.sess.values()) and st.exists:
             fb = self.file_bytes()
             recs, hdr, clean = parse_ukv(fb)
+            kw = self.hdr_kw or {}
+            exp_hdr = ((kw.get("h1") or b"ML10UKV01"), (kw.get("comment") or "").encode(), kw.get("b0") or b"")
+            got_hdr = (hdr[0].rstrip(b"\0"), hdr[1], hdr[2])
+            if got_hdr != exp_hdr:
+                self.viol(st, op, "file-header-changed", f"file header {got_hdr!r} != {exp_hdr!r} given at creation")
+                ok = False
+            for name, c in st.handles.items():
+                uf = getattr(c._backend, "_ukvfile", None)
+                if uf is not None and hdr_of(uf) != exp_hdr:
+                    self.viol(st, op, "header-changed", f"a handle shows headers {hdr_of(uf)!r} != {exp_hdr!r}")
+                    ok = False
             if not clean or {k.decode(): v for k, v in recs} != exp or len(recs) != len(exp):
                 self.viol(st, op, "file-records-differ", f"after the session the file holds {len(recs)} records (clean={clean}); successful puts: {len(exp)}")
                 ok = False
@@ -805,31 +826,33 @@ def run(ctx):
         return lst[r:] + lst[:r]
 
     # ---- layer U -------------------------------------------------------------------------------
-    dU_full = 7 if thorough else 6
-    mkU = lambda c: USys(c, nhandles=2, keys=rot(KEYNAMES), vals=vals, label="U2")
-    seqx.pbfs(ctx, mkU, [[]], dU_full)
-    ctx.bound["U_2handles_full_alphabet_depth"] = dU_full
-    # reduced alphabet, one level deeper, three handles in the thorough tier
+    import time as _t
+
+    def layer(name, mk, depth):
+        t0 = _t.time()
+        seqx.pbfs(ctx, mk, [[]], depth)
+        ctx.bound[name] = depth
+        ctx.note("wall_s[" + name + "]", round(_t.time() - t0, 1))
+
     red_keys = ["a", "k256", "empty"]
     red_vals = {"e": b"", "x": b"x"}
-    dU_red = 7
-    mkU3 = lambda c: USys(c, nhandles=3 if thorough else 2, keys=red_keys, vals=red_vals, label="U3")
-    seqx.pbfs(ctx, mkU3, [[]], dU_red)
-    ctx.bound["U_reduced_alphabet_depth"] = dU_red
+    # full alphabet, all four header variants
+    layer("U_2handles_full_alphabet_4headers_depth", lambda c: USys(c, nhandles=2, keys=rot(KEYNAMES), vals=vals, label="U2"), 6 if thorough else 5)
+    # full alphabet, one level deeper on the default header
+    layer("U_2handles_full_alphabet_default_header_depth", lambda c: USys(c, nhandles=2, keys=rot(KEYNAMES), vals=vals, label="U2d", headers=["default"]), 7 if thorough else 6)
+    # reduced alphabet, deeper, three handles in the thorough tier
+    layer("U_reduced_alphabet_depth", lambda c: USys(c, nhandles=3 if thorough else 2, keys=red_keys, vals=red_vals, label="U3", headers=["default", "h2only"]), 8 if thorough else 9)
     ctx.bound["U_reduced_alphabet_handles"] = 3 if thorough else 2
 
     # ---- layer C -------------------------------------------------------------------------------
-    dC = 7 if thorough else 6
     ckeys = rot(["a", "b", "empty", "k256", "u2", "u1"]) if not thorough else rot(list(CKEYS))
     cvals = {"e": b"", "x": b"x", "yy": b"yy"} if not thorough else vals
-    mkC = lambda c: CSys(c, nhandles=2, keys=ckeys, vals=cvals, label="C2")
-    seqx.pbfs(ctx, mkC, [[]], dC)
-    ctx.bound["C_2handles_depth"] = dC
+    layer("C_2handles_depth", lambda c: CSys(c, nhandles=2, keys=ckeys, vals=cvals, label="C2"), 7 if thorough else 5)
     # deeper with a reduced alphabet: stale handles need new+new+enter+set+exit+enter(other)+...
-    dC2 = 8 if thorough else 7
-    mkC2 = lambda c: CSys(c, nhandles=3 if thorough else 2, keys=["a", "k256"], vals={"x": b"x"}, bufs=["dflt", "large"], label="C3")
-    seqx.pbfs(ctx, mkC2, [[]], dC2)
-    ctx.bound["C_reduced_alphabet_depth"] = dC2
+    layer("C_reduced_alphabet_depth", lambda c: CSys(c, nhandles=3 if thorough else 2, keys=["a", "k256"], vals={"x": b"x"}, bufs=["dflt", "large"], label="C3"), 8 if thorough else 9)
+    # header fields given at creation through the Collection constructor (each alone and together)
+    for tag, kw in (("h2only", dict(comment="comment only")), ("b0only", dict(b0=b"\x07desc")), ("all", dict(h1=b"ML10Library", comment="c", b0=b"\x00d"))):
+        layer("C_header_" + tag + "_depth", lambda c, kw=kw, tag=tag: CSys(c, nhandles=2, keys=["a", "k256"], vals={"x": b"x", "e": b""}, bufs=["dflt", "large"], label="C4" + tag, hdr_kw=kw), 8 if thorough else 7)
 
     # non-triviality / outcome accounting is collected by the systems through ctx.nontrivial/outcome
     for k in ctx.state_keys:
